@@ -151,6 +151,8 @@ var constraints = []constraint{
 	{name: "electreQAboveP", methods: []string{"electreIII"}, expect: 400, apply: func(q M) { mpOf(q)["electreCriteria"].(M)["c0"].(M)["q"] = M{"b": 3.0} }},
 	{name: "electreQEqualsP", methods: []string{"electreIII"}, expect: 400, apply: func(q M) { mpOf(q)["electreCriteria"].(M)["c0"].(M)["q"] = M{"b": 2.0} }},
 	{name: "electrePAboveV", methods: []string{"electreIII"}, expect: 400, apply: func(q M) { mpOf(q)["electreCriteria"].(M)["c0"].(M)["v"] = M{"b": 1.5} }},
+	{name: "electreNegativeV", methods: []string{"electreIII"}, expect: 400, apply: func(q M) { mpOf(q)["electreCriteria"].(M)["c0"].(M)["v"] = M{"b": -3.0} }},
+	{name: "electreNegativeP", methods: []string{"electreIII"}, expect: 400, apply: func(q M) { mpOf(q)["electreCriteria"].(M)["c0"].(M)["p"] = M{"b": -1.0} }},
 	{name: "omissionRatioAboveOne", expect: 400, apply: func(q M) { q["biases"] = oneBias("criteriaOmission", M{"ratio": 1.5, "max": 1}) }},
 	{name: "omissionRatioNegative", expect: 400, apply: func(q M) { q["biases"] = oneBias("criteriaOmission", M{"ratio": -0.125}) }},
 	{name: "reversalRatioAboveOne", expect: 400, apply: func(q M) { q["biases"] = oneBias("preferenceReversal", M{"ratio": 1.25}) }},
@@ -199,6 +201,8 @@ var constraints = []constraint{
 		p["anchoringAlternatives"] = []interface{}{}
 		q["biases"] = oneBias("anchoring", p)
 	}},
+	{name: "valueForUndeclaredCriterion", expect: 0, apply: func(q M) { q["knownAlternatives"].([]interface{})[0].(M)["criteria"].(M)["zz_undeclared"] = 3.5 }},
+	{name: "weightForUndeclaredCriterion", methods: weightMethods, expect: 0, apply: func(q M) { mpOf(q)["weights"].(M)["zz_undeclared"] = 1.5 }},
 	{name: "emptyChoseToMake", expect: 0, apply: func(q M) { q["choseToMake"] = []interface{}{} }},
 	{name: "noCriteria", expect: 0, apply: func(q M) { q["criteria"] = []interface{}{} }},
 	{name: "omissionOfEverything", expect: 0, apply: func(q M) { q["biases"] = oneBias("criteriaOmission", M{"ratio": 1.0}) }},
